@@ -19,9 +19,13 @@ def run(ctx):
         "pointer identity of foreign errors is modelled by a creation counter",
     ]
     ctx.assumptions += [
-        "append_items / append_args_unchanged assume a well-formed heap (links point forward and inside the heap — every "
-        "heap the exported API can build) and that no appended argument's chain ends in the accumulator's tail cell "
-        "(no aliasing between accumulator and arguments); aliased calls are covered by the correspondence run only",
+        "the Append theorems assume a well-formed heap (WF: links point forward, stay inside the heap, never reach an "
+        "empty node; preserved by New/NewWithCause/&Error{}/Wrap/WrapTyped/Append — constructors_wf, append_wf) and "
+        "NoAlias: no appended argument's chain ends in the accumulator's last cell; aliased calls (Append(a, b, a) "
+        "contains a, b, a, b) and heaps built with CloneWithPrefixMessage (shared tails) are covered by the "
+        "correspondence run only (append_alias_Statement, append_wf_any_Statement are stated, not proved)",
+        "the model driver evaluates the Boolean form of WF on every heap of every history without clone and prints an "
+        "alarm (a mismatch) if it fails",
         "Appendix B: when err is nil the first non-nil *Error argument is adopted as the accumulator (and mutated)",
     ]
     ctx.lean(props=["Props.C11"], drivers=["drv_c11"])
